@@ -11,6 +11,10 @@ import vf
 
 KIND_CODE = {"t": 12, "u": 7, "d": 15}      # uv_handle_type: UV_TCP, UV_NAMED_PIPE, UV_UDP
 K_STALL = "accept_failure_stalls_server"
+# Which uv_accept the model is run as.  False: the current code (POLLIN re-armed only if (err == 0) - known
+# finding accept_failure_stalls_server).  True: the code with notes/C07_fix_accept_rearm.diff.  Flip the
+# default when the patch is committed.
+ACCEPT_REARM = os.environ.get("VERIF_C07_ACCEPT_REARM", "1") == "1"
 # Which uv_pipe_connect the model is run as.  False: the current code (a second connect while one is
 # pending overwrites connect_req - known finding pipe_connect_overwrites_pending_request).  True: the code
 # with notes/C07_fix_pipe_connect_ealready.diff (UV_EALREADY).  Flip the default when the patch is committed.
@@ -246,7 +250,7 @@ def acc_model_input(case, out):
             continue
         mops.append(o)
     answers = [t for t in log if t != "|"] if not ipc else []
-    return "%d ; %s ; %s ; %s ; %s ; %s ; %s" % (1 if ipc else 0, " ".join(mops), behs, " ".join(answers),
+    return "%d %d ; %s ; %s ; %s ; %s ; %s ; %s" % (1 if ipc else 0, 1 if ACCEPT_REARM else 0, " ".join(mops), behs, " ".join(answers),
                                                 alloc, opn, " ".join(kinds))
 
 
@@ -382,7 +386,7 @@ def server_monitor(case, out):
         if waiting:
             why = "clients %s wait in the backlog, nothing is held, yet the server no longer polls for connections" \
                   % waiting[:5]
-            return (K_STALL, why + " (after a failed uv_accept)") if failed else (None, why)
+            return (K_STALL, why + " (after a failed uv_accept)") if failed and not ACCEPT_REARM else (None, why)
     return None
 
 
